@@ -75,6 +75,8 @@ def closure_has_side_effect(stmts):
 
 def classify(small, where):
     kinds = fc.interesting_kinds(small)
+    if any(k in kinds for k in ("closure", "map_keys", "map_values", "filter", "for_each")):
+        return "fail:%s:closure" % where.split(":")[0]
     if closure_has_side_effect(small):
         # one root cause (closure bodies are typed as if they ran exactly once / their effects on the
         # type state are not merged): keyed by the failing observable only
